@@ -151,7 +151,7 @@ theorem pdata_off_eq (p : BitVec 64) : note_get_pdata_off p = p := rfl
 
 /-! ### slices -/
 
-theorem slice_append_left {A R : Bytes} {off len : Nat} (h : off + len ≤ A.length) :
+theorem slice_append_left_note {A R : Bytes} {off len : Nat} (h : off + len ≤ A.length) :
     slice (A ++ R) off len = slice A off len := by
   unfold slice
   apply List.ext_getElem?
@@ -159,7 +159,7 @@ theorem slice_append_left {A R : Bytes} {off len : Nat} (h : off + len ≤ A.len
   simp only [List.getElem?_take, List.getElem?_drop, List.getElem?_append]
   ite_omega
 
-theorem slice_append_right (A R : Bytes) (k len : Nat) :
+theorem slice_append_right_note (A R : Bytes) (k len : Nat) :
     slice (A ++ R) (A.length + k) len = slice R k len := by
   unfold slice
   rw [List.drop_append, List.drop_eq_nil_of_le (by omega)]
@@ -167,7 +167,7 @@ theorem slice_append_right (A R : Bytes) (k len : Nat) :
 
 theorem slice_self (A : Bytes) : slice A 0 A.length = A := by simp [slice]
 
-theorem slice_slice {a X : Bytes} {p L : Nat} (h : slice a p L = X) {off len : Nat}
+theorem slice_slice_note {a X : Bytes} {p L : Nat} (h : slice a p L = X) {off len : Nat}
     (hl : off + len ≤ X.length) : slice a (p + off) len = slice X off len := by
   subst h
   unfold slice at *
@@ -188,7 +188,7 @@ theorem slice_length_eq {a X : Bytes} {p L : Nat} (h : slice a p L = X) (hL : X.
 
 theorem slice_append_right' {A : Bytes} {m : Nat} (hA : A.length = m) (R : Bytes) (k len : Nat) :
     slice (A ++ R) (m + k) len = slice R k len := by
-  subst hA; exact slice_append_right A R k len
+  subst hA; exact slice_append_right_note A R k len
 
 theorem slice_prefix {A : Bytes} {m : Nat} (hA : A.length = m) (R : Bytes) : slice (A ++ R) 0 m = A := by
   subst hA; simp [slice]
